@@ -221,6 +221,7 @@ CHECKS["C01"] = dict(
         ob("VH_C01_e2e", dict(S=3, D=2, MAXB=1, NZ=1), Q, covers=["done"], bounds="source {d, d/f, h, l}, prior destination empty or stale file, non-zero ids", max_steps=5000000),
         ob("VH_C01_e2e", dict(S=18, D=6, MAXB=0, NZ=1), Q, covers=["done"], bounds="source {d, d/f, l -> d/f or d, zl = optional second name of the symlink inode}, every dirty prior destination incl. a directory where the source has the symlink", max_steps=5000000),
         ob("VH_C01_e2e", dict(S=8, D=2, MAXB=1, NZ=1, MT=1), Q, covers=["done"], bounds="source {d, d/f, e} with mtimes from {1.25 s before the epoch, the last nanosecond of a second}", max_steps=5000000),
+        ob("VH_C01_e2e", dict(S=0, D=5, MAXB=0, NZ=0), Q, covers=["done"], bounds="source {d, d/f}, every dirty prior destination, fully symbolic ids (zero included: the receiver's own uid/gid)", max_steps=5000000),
         ob("VH_C01_e2e", dict(S=4, D=1, MAXB=1, NZ=1), Q, covers=["done"], bounds="source {d, d/f, p(fifo/char device)}, fresh destination, non-zero ids", max_steps=5000000),
         ob("VH_C01_e2e", dict(S=0, D=2, MAXB=1, NZ=1, X=1), Q, covers=["done"], bounds="source {d, d/f} with optional user.* xattrs on both, prior destination empty or stale file", max_steps=5000000),
         ob("VH_C01_e2e", dict(S=8, D=6, MAXB=0, NZ=1, MERGE=1), Q, covers=["done", "merge", "kept-stale"], bounds="merge mode: source {d, d/f, e}, every dirty prior destination; result = overlay, nothing deleted that the source does not replace", max_steps=5000000),
